@@ -1,6 +1,7 @@
 (* Properties/C05.v -- C05: texture depends on the strain path, not on the strain rate *)
 From Coq Require Import Reals ZArith List.
-From PV Require Import Num NumR Model_core Model_minerals Proofs_core Proofs_minerals Proofs_rhs.
+From Coquelicot Require Import Hierarchy Derive.
+From PV Require Import Num NumR Model_core Model_minerals Proofs_core Proofs_minerals Proofs_rhs Proofs_flow.
 Import ListNotations.
 Open Scope R_scope.
 
@@ -26,6 +27,19 @@ Proof. exact eigmax_homogeneous. Qed.
 Theorem C05_update_rate_free : forall n chi (prev : @snapshot NumR) (y : list R),
   length y = (9 + 10 * n)%nat -> fst (@update NumR n chi prev y) = firstn 9 y.
 Proof. exact update_returns_F_block'. Qed.
+
+(* exact solutions: if y solves y' = f(t, y) on [a,b] and the k-scaled history has the vector field
+   fk(t, z) = k f(k t, z) (the theorem above), then z(t) = y(k t) solves the scaled problem on
+   [a/k, b/k] and ends in the same state -- for every k > 0 and every partition *)
+Theorem C05_solution_rescale : forall (f : R -> (nat -> R) -> nat -> R) (y : nat -> R -> R) (a b k : R),
+  0 < k -> (forall i t, a <= t <= b -> is_derive (y i) t (f t (fun j => y j t) i)) ->
+  forall i t, a / k <= t <= b / k ->
+  is_derive (z y k i) t (fk f k t (fun j => z y k j t) i).
+Proof. exact solution_rescale. Qed.
+
+Theorem C05_rescaled_end_value : forall (y : nat -> R -> R) (b k : R), 0 < k ->
+  forall i, z y k i (b / k) = y i b.
+Proof. exact rescale_end_value. Qed.
 
 Example C05_nonvacuous : length [1; 0; 0; 0; -1; 0; 0; 0; 0] = 9%nat /\ 1e-15 <> 0 /\ is_eigmax [1; 0; 0; 0; -1; 0; 0; 0; 0] 1.
 Proof. exact C05_nonvacuous_proof. Qed.
